@@ -12,6 +12,14 @@ import (
 func init() {
 	Register(&Check{ID: "DBG", Level: "other", Run: func(c *Ctx) {
 		rc := strings.ReplaceAll(os.Getenv("VERIF_DBG_RC"), `\n`, "\n")
+		if km := os.Getenv("VERIF_DBG_ALLBOUND"); km != "" {
+			r, acts := allBoundRC(km)
+			rc += r
+			for _, a := range acts {
+				fmt.Fprintf(os.Stderr, "%s=%q ", a.Name, a.Ans[0].Bytes)
+			}
+			fmt.Fprintln(os.Stderr)
+		}
 		var ans []harness.Answer
 		for _, k := range strings.Split(os.Getenv("VERIF_DBG_KEYS"), " ") {
 			if k == "" {
